@@ -1133,8 +1133,13 @@ func (v *VMValue) AttrGet(ctx *Context, name string) *VMValue {
 			p1 := v
 			p1x := a
 
+			visited := map[any]bool{v.Value: true}
 			for {
 				if p1, ok = p1x.Load("__proto__"); ok && p1.TypeId == VMTypeDict {
+					if visited[p1.Value] {
+						break // __proto__ 链成环(如 a.__proto__ = a)，不再继续查找
+					}
+					visited[p1.Value] = true
 					var exists bool
 					p1x = (*VMDictValue)(p1)
 					ret, exists = p1x.Load(name)
